@@ -409,6 +409,27 @@ func runC03(c *eng.Ctx) {
 		c.Check(eng.DominatedBy(mg, fl.Instr, []eng.Site{hk}, nil), "iterates-union", fl.Instr, mg, "the series iterated are those of the union bitmap", "")
 	})
 
+	// ---- the per-block scanner of the merge only moves forward when it lags behind the requested container --------------------------
+	c.Rule("GUARD", "tsdb/tblstore/metricsdata.dataScanner.scan{advance only when behind}", func() {
+		f := c.Fn("tsdb/tblstore/metricsdata.dataScanner.scan")
+		facts := p.MustFacts(f)
+		adv := c.Some(f, eng.StoreField("tsdb/tblstore/metricsdata.dataScanner.highContainerIdx"), "s.highContainerIdx++ (scanner moves to its next container)")
+		for i, a := range adv {
+			fs := facts.At(a.Instr)
+			lt := facts.Find(fs, "lt", eng.DescSuffix(".highKey"), eng.DescIs("highKey"))
+			c.Check(len(lt) > 0, fmt.Sprintf("behind[%d]", i), a.Instr, f,
+				"the scanner leaves its current container only when that container's high key is SMALLER than the requested one; a block that is ahead of the request answers 'not here' and keeps its position (its later containers are still to be merged)",
+				"facts: "+strings.Join(facts.Render(fs), " ; "))
+		}
+		// and it answers from the current container only on an exact match
+		cont := c.Some(f, invokeOn(".container", "Contains"), "s.container.Contains(lowSeriesID)")
+		for i, x := range cont {
+			fs := facts.At(x.Instr)
+			eq := facts.Find(fs, "eq", eng.DescSuffix(".highKey"), eng.DescIs("highKey"))
+			c.Check(len(eq) > 0, fmt.Sprintf("exact-container[%d]", i), x.Instr, f, "series data is looked up only in the container of the requested high key", "facts: "+strings.Join(facts.Render(fs), " ; "))
+		}
+	})
+
 	// ---- one compaction job per family at a time ----------------------------------------------------------------------------------------
 	c.Rule("ATOMIC", "kv.family.compact{single flight}", func() { singleFlight(c, "kv.family.compacting", "kv.family.compact") })
 
@@ -417,6 +438,9 @@ func runC03(c *eng.Ctx) {
 
 	// ---- every level-1 input of a compaction is listed once -----------------------------------------------------------------------------
 	c.Rule("UNION", "kv/version.version.PickL0Compaction{distinct level-1 inputs}", func() { distinctUpInputs(c) })
+
+	// ---- every input block is decoded over its own slot range and re-encoded ---------------------------------------------------------
+	c.Rule("PROV", "tsdb/tblstore/metricsdata.seriesMerger.merge{decode with the block's own range}", func() { seriesMergerOwnRange(c) })
 
 	// ---- block writer anchors -----------------------------------------------------------------------------------------------------------
 	c.Rule("ANCHOR", mfT+".FlushSeries{startAt}", func() { flusherAnchors(c) })
@@ -813,4 +837,79 @@ func distinctUpInputs(c *eng.Ctx) {
 		c.Check(keyed, "up-inputs-from-the-keyed-set", nc.Instr, f, "the level-1 inputs passed to NewCompaction are taken from / filtered by the set keyed by file number", fmt.Sprintf("fromMap=%v direct=%v arg=%s%s", fromMap, direct, p.Desc(up), dbg))
 	}
 	c.Check(keyed, "overlaps-collected-by-file-number", nc.Instr, f, "overlapping level-1 files are collected into a map keyed by file number", "no such map update")
+}
+
+// seriesMergerOwnRange: field data in a metric block carries no time stamps; bit i of its stream belongs to slot
+// (block start + i). The series merger therefore (1) resets the decoder of input block k with the slot range reported by
+// block k's own reader (not the union range of the job, which starts earlier for every later block), and (2) writes to
+// the output only what the encoder produced over the target range — raw input bytes may be copied through only under a
+// test of that block's own range.
+func seriesMergerOwnRange(c *eng.Ctx) {
+	p := c.P
+	f := c.Fn("tsdb/tblstore/metricsdata.seriesMerger.merge")
+	isInvoke := func(name string) func(ssa.Value) bool {
+		return func(x ssa.Value) bool {
+			cl, ok := x.(*ssa.Call)
+			return ok && cl.Common().IsInvoke() && cl.Common().Method.Name() == name && strings.HasSuffix(cl.Common().Value.Type().String(), "metricsdata.FieldReader")
+		}
+	}
+	rs := c.Some(f, invokeOn("", "ResetWithTimeRange"), "decoder.ResetWithTimeRange(fieldData, start, end)")
+	for i, r := range rs {
+		a := eng.CallArgs(r.Instr.(*ssa.Call))
+		if len(a) != 3 {
+			c.Undecided("ResetWithTimeRange does not take (data, start, end)")
+		}
+		for j, bound := range []string{"Start", "End"} {
+			v := a[1+j]
+			own := eng.DependsOn(v, isInvoke("SlotRange")) && strings.HasSuffix(p.Desc(v), "."+bound)
+			job := eng.DependsOnField(v, "tsdb/tblstore/metricsdata.mergerContext.sourceRange", "tsdb/tblstore/metricsdata.mergerContext.targetRange")
+			c.Check(own && !job, fmt.Sprintf("own-%s[%d]", strings.ToLower(bound), i), r.Instr, f,
+				"the decoder of an input block is positioned with the "+bound+" of that block's own slot range (reader.SlotRange()), not with a range of the merge job",
+				"passes "+p.Desc(v))
+		}
+		// the range and the data come from the same reader
+		var dataRecv, rangeRecv ssa.Value
+		eng.WalkExpr(a[0], func(x ssa.Value) bool {
+			if isInvoke("GetFieldData")(x) {
+				dataRecv = x.(*ssa.Call).Common().Value
+			}
+			return true
+		})
+		eng.WalkExpr(a[1], func(x ssa.Value) bool {
+			if isInvoke("SlotRange")(x) {
+				rangeRecv = x.(*ssa.Call).Common().Value
+			}
+			return true
+		})
+		if dataRecv != nil && rangeRecv != nil {
+			c.Check(eng.SameValue(dataRecv, rangeRecv) || p.Desc(dataRecv) == p.Desc(rangeRecv), fmt.Sprintf("same-reader[%d]", i), r.Instr, f,
+				"data and range handed to the decoder come from the same block reader", p.Desc(dataRecv)+" vs "+p.Desc(rangeRecv))
+		}
+	}
+	fl := c.Some(f, invokeOn("flusher", "FlushField"), "flusher.FlushField(data)")
+	for i, x := range fl {
+		a := eng.CallArgs(x.Instr.(*ssa.Call))
+		enc := eng.DependsOn(a[0], func(v ssa.Value) bool {
+			cl, ok := v.(*ssa.Call)
+			if !ok || cl.Common().StaticCallee() == nil {
+				return false
+			}
+			k := p.FuncKey(cl.Common().StaticCallee())
+			return k == "pkg/encoding.TSDEncoder.BytesWithoutTime" || k == "pkg/encoding.TSDEncoder.Bytes"
+		})
+		if enc || eng.IsNilConst(a[0]) {
+			c.Check(true, fmt.Sprintf("output-is-encoder-result[%d]", i), x.Instr, f, "what is written for a field is what the encoder produced over the target range", "")
+			continue
+		}
+		conds, _ := eng.GuardingConds(f, x.Instr)
+		guarded := false
+		for _, cd := range conds {
+			if eng.DependsOn(cd, isInvoke("SlotRange")) {
+				guarded = true
+			}
+		}
+		c.Check(guarded, fmt.Sprintf("output-is-encoder-result[%d]", i), x.Instr, f,
+			"what is written for a field is what the encoder produced over the target range; input bytes are passed through only under a test of the contributing block's own slot range",
+			"writes "+p.Desc(a[0])+" without such a test")
+	}
 }
